@@ -292,6 +292,13 @@ func main() {
 	}
 	if r := os.Getenv("VERIF_ROOT"); r != "" {
 		root = r
+	} else if exe, err := os.Executable(); err == nil {
+		// <root>/bin/verif: work in the tree this binary was built in (a snapshot under `vp run` must not touch /verif)
+		if d := filepath.Dir(filepath.Dir(exe)); filepath.Base(filepath.Dir(exe)) == "bin" {
+			if _, err := os.Stat(filepath.Join(d, "props.json")); err == nil {
+				root = d
+			}
+		}
 	}
 	switch os.Args[1] {
 	case "build":
